@@ -7,22 +7,24 @@ COQ_FILES = ["theories/BandTie.v", "theories/Prune.v", "theories/PyDist.v", "the
              "theories/PyDistPrune.v", "gen/Gen_cdist.v", "theories/CDistCanon.v", "theories/CDistTie.v",
              "theories/CDistProofs.v", "theories/CDistSpec.v", "gen/Gen_ced.v", "theories/CEd.v", "gen/Gen_pydist.v", "theories/PyDistGen.v",
              "gen/Gen_cwpsk.v", "gen/Gen_cexpw.v", "theories/CWpsCanon.v", "theories/CWpsCanonEu.v", "theories/CWpsKernel.v", "theories/CWpsTie.v", "theories/CWpsTieEu.v",
-             "theories/CWpsValue.v", "theories/CWpsSpec.v", "theories/CWpsSpecEu.v", "theories/CWpsPrune.v", "theories/CWpsSpecB.v", "theories/CWpsSpecBEu.v", "theories/CWpsValueB.v", "theories/CExpW.v", "theories/CWpsFinal.v", "props/C03.v"]
+             "theories/CWpsValue.v", "theories/CWpsSpec.v", "theories/CWpsSpecEu.v", "theories/CWpsPrune.v", "theories/CWpsSpecB.v", "theories/CWpsSpecBEu.v", "theories/CWpsValueB.v", "theories/CExpW.v", "gen/Gen_cparts.v", "theories/CParts.v", "theories/CWpsFinal.v", "props/C03.v"]
 THEOREMS = [("DVProps.C03", "C03_pruning_sound_partial"), ("DVProps.C03", "C03_max_dist_result_partial"),
             ("DVProps.C03", "C03_euclidean_bound_keeps_value"), ("DVProps.C03", "C03_pruned_code_model_exact"),
             ("DVProps.C03", "C03_c_kernel_result_is_bounded_value"), ("DVProps.C03", "C03_c_kernel_no_bound_no_cut"),
             ("DVProps.C03", "C03_c_use_pruning_keeps_value"), ("DVProps.C03", "C03_py_distance_as_written_bounded"),
             ("DVProps.C03", "C03_c_wps_rows_share_one_pruning_core"),
             ("DVProps.C03", "C03_c_wps_kernel_with_bound_as_written"), ("DVProps.C03", "C03_c_wps_use_pruning_is_a_bound"),
-            ("DVProps.C03", "C03_c_wps_euclidean_kernel_with_bound_as_written")]
+            ("DVProps.C03", "C03_c_wps_euclidean_kernel_with_bound_as_written"),
+            ("DVProps.C03", "C03_c_warping_paths_from_the_settings_struct")]
 TRUSTED_BASE = [
     "Coq 8.16.1 kernel (no native_compute)",
     "the pruning bookkeeping of the two C warping-paths kernels (Gen_cwpsk.v, regenerated whole): all eight row loops "
     "are proved to be the one row core CWpsKernel.k_wrow_core (C03_c_wps_rows_share_one_pruning_core), and for the "
     "both kernels that core is PROVED exact under every bound: value = bounded B (dtw_value), cells equal or both "
     "above B, all accesses in range (C03_c_wps_kernel_with_bound_as_written, C03_c_wps_euclidean_kernel_with_bound_as_written; "
-    "CWpsPrune.v, CWpsSpecB.v, CWpsSpecBEu.v, CWpsValueB.v; the DTWWps members are the regenerated dtw_wps_parts "
-    "expressions, dtw_wps_shift the regenerated function, -1 marks not requested)",
+    "CWpsPrune.v, CWpsSpecB.v, CWpsSpecBEu.v, CWpsValueB.v; -1 marks not requested); dtw_wps_parts is regenerated WHOLE "
+    "too (Gen_cparts.v) and the kernel called with the members of the struct it returns is proved against the settings "
+    "as they stand in the struct (C03_c_warping_paths_from_the_settings_struct, CParts.v)",
     "the sc/ec/ec_next/smaller_found/break bookkeeping of dtw.distance is modelled as written (PyDist.distp_model, "
     "rolling buffer, regenerated index arithmetic) and PROVED exact for every bound when there is no begin relaxation "
     "(C03_pruned_code_model_exact); the hand model is tied to dtw.distance and dtw_distance (C) by correspondence "
